@@ -711,6 +711,15 @@ pub fn truncate_json(v: Value) -> Value {
     }
 }
 
+/// Decode a case from fuzzer bytes: the bytes become the random stream of the proptest strategy
+/// (proptest's pass-through RNG), so every strategy doubles as a structure-aware fuzz decoder.
+pub fn case_from_bytes<S: Strategy>(strategy: &S, data: &[u8]) -> Option<S::Value> {
+    let rng = proptest::test_runner::TestRng::from_seed(RngAlgorithm::PassThrough, data);
+    let cfg = Config { failure_persistence: None, ..Config::default() };
+    let mut runner = TestRunner::new_with_rng(cfg, rng);
+    strategy.new_tree(&mut runner).ok().map(|t| t.current())
+}
+
 pub fn from_value<T: DeserializeOwned>(v: &Value) -> Option<T> {
     serde_json::from_value(v.clone()).ok()
 }
